@@ -323,3 +323,143 @@ func SortedKeys(m map[string]uint64) []string {
 	sort.Strings(ks)
 	return ks
 }
+
+// DigestCap digests a value including, for every slice, the elements between len and cap:
+// the part of a caller-owned backing array that a pure operation must not write to (an
+// `append` to an aliased slice with spare capacity does exactly that).
+func DigestCap(v any) uint64 {
+	h := uint64(0xcbf29ce484222325)
+	digestCapVal(reflect.ValueOf(v), &h, 0)
+	return h
+}
+
+func mixIn(h *uint64, x uint64) {
+	*h ^= x
+	*h *= 0x100000001b3
+	*h ^= *h >> 29
+}
+
+func digestCapVal(v reflect.Value, h *uint64, depth int) {
+	if !v.IsValid() || depth > 64 {
+		mixIn(h, 0xdead)
+		return
+	}
+	switch v.Kind() {
+	case reflect.Bool:
+		if v.Bool() {
+			mixIn(h, 1)
+		} else {
+			mixIn(h, 2)
+		}
+	case reflect.Int, reflect.Int8, reflect.Int16, reflect.Int32, reflect.Int64:
+		mixIn(h, uint64(v.Int()))
+	case reflect.Uint, reflect.Uint8, reflect.Uint16, reflect.Uint32, reflect.Uint64, reflect.Uintptr:
+		mixIn(h, v.Uint())
+	case reflect.Float32, reflect.Float64:
+		mixIn(h, math.Float64bits(v.Float()))
+	case reflect.String:
+		s := v.String()
+		mixIn(h, uint64(len(s)))
+		for i := 0; i < len(s); i++ {
+			mixIn(h, uint64(s[i]))
+		}
+	case reflect.Slice:
+		mixIn(h, uint64(v.Len()))
+		if v.IsNil() {
+			return
+		}
+		full := v.Slice(0, v.Cap())
+		if v.Type().Elem().Kind() == reflect.Uint8 {
+			b := full.Bytes()
+			for _, x := range b {
+				mixIn(h, uint64(x))
+			}
+			return
+		}
+		for i := 0; i < full.Len(); i++ {
+			digestCapVal(full.Index(i), h, depth+1)
+		}
+	case reflect.Array:
+		for i := 0; i < v.Len(); i++ {
+			digestCapVal(v.Index(i), h, depth+1)
+		}
+	case reflect.Ptr, reflect.Interface:
+		if v.IsNil() {
+			mixIn(h, 0)
+			return
+		}
+		digestCapVal(v.Elem(), h, depth+1)
+	case reflect.Struct:
+		for i := 0; i < v.NumField(); i++ {
+			digestCapVal(v.Field(i), h, depth+1)
+		}
+	default:
+		mixIn(h, 0xbeef)
+	}
+}
+
+// AddSlack returns a deep copy of v in which every non-nil slice has `extra` elements of
+// spare capacity filled by fill (sentinels beyond len).
+func AddSlack(v any, extra int, fill func() uint64) any {
+	if v == nil {
+		return nil
+	}
+	return slackVal(reflect.ValueOf(v), extra, fill).Interface()
+}
+
+func slackVal(v reflect.Value, extra int, fill func() uint64) reflect.Value {
+	switch v.Kind() {
+	case reflect.Ptr:
+		if v.IsNil() {
+			return v
+		}
+		n := reflect.New(v.Type().Elem())
+		n.Elem().Set(slackVal(v.Elem(), extra, fill))
+		return n
+	case reflect.Interface:
+		if v.IsNil() {
+			return v
+		}
+		n := reflect.New(v.Type()).Elem()
+		n.Set(slackVal(v.Elem(), extra, fill))
+		return n
+	case reflect.Slice:
+		if v.IsNil() {
+			return v
+		}
+		n := reflect.MakeSlice(v.Type(), v.Len()+extra, v.Len()+extra)
+		for i := 0; i < v.Len(); i++ {
+			n.Index(i).Set(slackVal(v.Index(i), extra, fill))
+		}
+		for i := v.Len(); i < v.Len()+extra; i++ {
+			e := n.Index(i)
+			switch e.Kind() {
+			case reflect.Uint8, reflect.Uint16, reflect.Uint32, reflect.Uint64:
+				e.SetUint(fill() & (1<<uint(e.Type().Bits()) - 1))
+			}
+		}
+		return n.Slice(0, v.Len())
+	case reflect.Array:
+		n := reflect.New(v.Type()).Elem()
+		for i := 0; i < v.Len(); i++ {
+			n.Index(i).Set(slackVal(v.Index(i), extra, fill))
+		}
+		return n
+	case reflect.Struct:
+		n := reflect.New(v.Type()).Elem()
+		n.Set(v)
+		for i := 0; i < v.NumField(); i++ {
+			f := n.Field(i)
+			if !f.CanSet() {
+				continue
+			}
+			switch f.Kind() {
+			case reflect.Ptr, reflect.Interface, reflect.Slice, reflect.Array, reflect.Struct:
+				f.Set(slackVal(v.Field(i), extra, fill))
+			}
+		}
+		return n
+	default:
+		return v
+	}
+}
